@@ -355,6 +355,7 @@ func (c13) Run(t *testing.T, tape *core.Tape, rcx *RunCtx) *core.Result {
 	leak, pv := core.Bubble(t, func() {
 		sim = core.NewSim(tape)
 		sim.Record = rcx.Record
+		sim.TimeJitter = true
 		// Liveness is judged against what the parser has been given so far, not against a
 		// fixed cost: at any moment it may have used 20000 + 60 steps per byte handed to it
 		// + 50 per Read call + 200 per delivered record. A correct parser may read far ahead
